@@ -467,7 +467,8 @@ def normalise(text):
 
 def resource_key(d):
     """What identifies the resource: equal keys <=> equivalent URIs."""
-    return (d.scheme, d.host.kind, d.host.value, d.host.zone, d.effport, d.path, d.query if d.query != ("",) else ())
+    value = ascii_lower(d.host.value) if d.host.kind == "name" else d.host.value  # RFC 3986 3.2.2: host is case-insensitive
+    return (d.scheme, d.host.kind, value, d.host.zone, d.effport, d.path, d.query if d.query != ("",) else ())
 
 
 def normal_form_defects(text):
@@ -579,6 +580,7 @@ def selftest():
     assert resource_key(a) == resource_key(b) == resource_key(c)
     assert a.uri_host == "example.com" and a.path == ("~sensors", "temp.xml") and a.query == () and a.effport == 5683
     assert normalise("coap://EXAMPLE.com:/%7esensors/temp.xml") == "coap://example.com/~sensors/temp.xml"
+    assert resource_key(decompose("coap://h%41/")) == resource_key(decompose("coap://Ha/")) != resource_key(decompose("coap://hb/"))
     # RFC 7252 Appendix B examples (6.4/6.5)
     d = decompose("coap://[2001:db8::2:1]/")
     assert d.uri_host is None and d.host.kind == "ipv6" and d.host.value == 0x20010DB8000000000000000000020001 and d.effport == 5683 and d.path == () and d.query == ()
